@@ -302,9 +302,12 @@ Proof.
     + apply IH.
 Qed.
 
-Lemma int_match_nonempty uw ud r p c sfx : int_match uw ud r = Some (p, c, sfx) -> c <> [].
+Lemma span_head_nonempty (p : N -> bool) h t : p h = true -> fst (NumRe.span p (h :: t)) <> [].
+Proof. intros H. cbn [NumRe.span]. rewrite H. destruct (NumRe.span p t). discriminate. Qed.
+
+Lemma int_match_old_nonempty uw ud r p c sfx : int_match_old uw ud r = Some (p, c, sfx) -> c <> [].
 Proof.
-  unfold int_match.
+  unfold int_match_old.
   assert (Hplain : match int_const ud false r with
                    | Some (c0, r0) => Some ([], c0, int_suffix uw ud c0 r0)
                    | None => None
@@ -319,6 +322,15 @@ Proof.
     + exact Hplain.
   - destruct a as [|pa]; [exact Hplain|].
     repeat (destruct pa as [pa|pa|]; try exact Hplain). congruence.
+Qed.
+
+Lemma int_match_nonempty uw ud r p c sfx : int_match uw ud r = Some (p, c, sfx) -> c <> [].
+Proof.
+  unfold int_match. destruct (hex_start ud r) eqn:Eh; [|apply int_match_old_nonempty].
+  unfold hex_start in Eh. destruct r as [|a [|xc [|h t]]]; try discriminate; try (rewrite ?andb_false_r in Eh; discriminate).
+  apply andb_true_iff in Eh as [_ Eh]. apply andb_true_iff in Eh as [_ Eh]. cbn [skipn].
+  pose proof (span_head_nonempty (ishex ud) h t Eh) as Hn.
+  destruct (NumRe.span (ishex ud) (h :: t)) as [c0 r0]. intros H; inversion H; subst. exact Hn.
 Qed.
 
 Lemma fexp_match_nonempty uw ud r c e sfx : fexp_match uw ud r = Some (c, e, sfx) -> c <> [].
